@@ -72,6 +72,16 @@ fn c18_builder_program() {
     let port: u16 = kani::any();
     let remote = SocketAddr::from(([127, 0, 0, 1], 29999));
     let local = SocketAddr::from(([0, 0, 0, 0], port));
+    // an earlier transport choice that the final one must override completely
+    let earlier: u8 = kani::any();
+    kani::assume(earlier < 4);
+    let port0: u16 = kani::any();
+    b = match earlier {
+        0 => b,
+        1 => b.udp(remote, Some(SocketAddr::from(([0, 0, 0, 0], port0)))),
+        2 => b.tcp(remote),
+        _ => b.relay(),
+    };
     b = match proto {
         0 => b.tcp(remote),
         1 => b.udp(remote, Some(local)),
@@ -88,6 +98,7 @@ fn c18_builder_program() {
     assert!(isi.iname.as_bytes() == b"insim.rs", "C18:default program name");
     assert!(isi.admin.is_empty(), "C18:default admin password empty");
     kani::cover!(proto == 2, "udp without a local address");
+    kani::cover!(earlier == 1 && proto == 0 && port0 != 0, "udp with a local port, then tcp");
     kani::cover!(model == 0x0FFC, "all ten flags set");
     std::mem::forget(isi);
     std::mem::forget(b);
